@@ -325,6 +325,7 @@ def write_evidence(run, prop, tier, seed, wall, dump_s, violations, known_hits, 
             "branch_feasibility_checks": run.total_branch_checks,
             "solver_seconds": round(sum(r["solver_s"] for r in recs), 3),
             "second_solver": run.cross_stats,
+            "second_engine_kani": [dict(r["kani"], obligation=r["id"]) for r in recs if r.get("kani")],
             "uninterpreted_callees": uninterp,
             "assumed_unreachable": assumed,
             "translator_validation": run.validation,
@@ -338,7 +339,7 @@ def write_evidence(run, prop, tier, seed, wall, dump_s, violations, known_hits, 
         },
         "assumptions": [
             "rustc's MIR (pinned nightly, -Zunpretty=mir) for the flag set of each profile is what the stable toolchain compiles",
-            "mirsym's translation of the supported MIR subset (validated per run against the suite's own vectors; cross-checked by Kani in the thorough tier)",
+            "mirsym's translation of the supported MIR subset (counterexamples replayed natively; the integer kernels of C03 / C07 / C08 / C10 are decided a second time by Kani / CBMC over the compiled code)",
             "exact models of core/alloc functions listed in mirsym/models.py; every other callee is uninterpreted",
             "per-function / per-loop-segment scope: the induction from per-step facts to whole runs is argued in DESIGN.md, not mechanised",
         ],
